@@ -135,8 +135,10 @@ def app_hash(k1: int, k2: int) -> bool:
     k2 = [k1 + 1, 2 * k1 + 1, 255][_realize(k2)]
     name, image = IMAGES[part()]
     fs = MemFS()
-    fs.files["/img/cut.hex"] = hex_lines(image, [k1, k2])
-    fs.files["/img/whole.hex"] = hex_lines(image, [])
+    from sim.base import c_boundary
+    # (building the files is harness code on concrete data: run it natively as well)
+    fs.files["/img/cut.hex"] = c_boundary(hex_lines)(image, [k1, k2])
+    fs.files["/img/whole.hex"] = c_boundary(hex_lines)(image, [])
     saved = hp.__dict__.get("open")
     hp.open = fs.open
     try:
